@@ -52,6 +52,22 @@ pub fn run(tier: Tier) -> Run {
     run.add_all(b.viols.clone());
     run.merge_outcomes(&a.outcomes);
     run.merge_outcomes(&b.outcomes);
+    // ---- per method (vcalls --c12): every one of the 1149 instruction-emitting methods with no block selected
+    let vcalls = crate::report::verif_root().join("harness").join("target").join("release").join("vcalls");
+    match std::process::Command::new(&vcalls).arg("--c12").output() {
+        Ok(o) if o.status.success() => match serde_json::from_slice::<serde_json::Value>(&o.stdout) {
+            Ok(d) => {
+                run.outcome("per_method_calls_without_block", d["calls"].as_u64().unwrap_or(0));
+                for v in d["violations"].as_array().cloned().unwrap_or_default() {
+                    run.add(crate::report::viol(v["key"].as_str().unwrap_or("C12:method"), v["what"].as_str().unwrap_or(""), v["replay"].clone()));
+                }
+            }
+            Err(e) => run.machinery(format!("vcalls --c12 printed no JSON: {}", e)),
+        },
+        Ok(o) => run.machinery(format!("vcalls --c12 failed: {}", String::from_utf8_lossy(&o.stderr).lines().last().unwrap_or(""))),
+        Err(e) => run.machinery(format!("cannot run {}: {} (bin/check C12 builds it)", vcalls.display(), e)),
+    }
+    run.require_outcome("per_method_calls_without_block");
     run.set("states", json!(b.states));
     run.set("transitions", json!(a.transitions + b.transitions));
     run.set("traces_validated_against_impl", json!(a.histories_replayed + b.histories_replayed));
